@@ -169,6 +169,18 @@ def _run_ob(ob, name, tier, seed, t0):
     if failed and not ob.opts.get('canary'):
         cex = find_counterexamples(ob, res, failed, seed, n=ob.opts.get('cex_samples', 300))
     out['cex'] = cex
+    # engine gap: the model cannot express the (changed) code.  Fall back to the concrete twin of the same contract on the
+    # real code (bounded, labelled); a failing input found there is a genuine violation of the contract with a replay.
+    if gaps and not ob.opts.get('canary'):
+        fb = numeric_fallback(ob, seed, n=ob.opts.get('gap_samples', 200))
+        out['gap_fallback'] = dict(tried=fb['tried'], failed=sorted(fb['found']))
+        for cname, rec in fb['found'].items():
+            verdicts[cname] = 'failed'
+            cex.setdefault('found', {})[cname] = rec
+            details.setdefault(cname, []).append((-1, {'bounded_fallback_after_engine_gap': gaps[0][:200]}))
+        out['verdicts'] = verdicts; out['cex'] = cex if isinstance(cex, dict) else {}
+        out['details'] = _jsonable({k: v[:3] for k, v in details.items()})
+        failed = [c for c, v in verdicts.items() if v == 'failed']
     if gaps and not verdicts: st_ = 'gap'
     elif validation['mismatches']: st_ = 'engine-mismatch'
     elif failed: st_ = 'failed'
@@ -180,6 +192,20 @@ def _run_ob(ob, name, tier, seed, t0):
     out['wall'] = time.time() - t0
     out['smt'] = dict(smt.STATS)
     return out
+
+
+def numeric_fallback(ob, seed, n=200):
+    rng = random.Random(seed * 31337 + 7)
+    found = {}; tried = 0
+    for k in range(n):
+        tried += 1
+        r = E.run_numeric(ob.fn, sample=None, tol=ob.opts.get('tol', 1e-7), rng=rng)
+        for cname, stt, det in r['clauses']:
+            if stt == 'failed' and cname not in found:
+                found[cname] = dict(sample=_jsonable(r['sample']), dtype='float64', detail=_jsonable(det))
+        if r['outcome'] == 'raised' and 'no_unexpected_exception' not in found:
+            found['no_unexpected_exception'] = dict(sample=_jsonable(r['sample']), dtype='float64', detail=r['error'])
+    return dict(found=found, tried=tried)
 
 
 def find_counterexamples(ob, res, failed, seed, n=300):
